@@ -45,6 +45,16 @@ Inject(sig, n) ==
      LET i == PosIdx(sig, n) IN
      [sig EXCEPT !.pos = RemoveAt1(sig.pos, i), !.ndef = IF HasPosDefault(sig, i) THEN sig.ndef - 1 ELSE sig.ndef]
   ELSE [sig EXCEPT !.kwo = SelectSeq(sig.kwo, LAMBDA e : e.n # n)]
+(* expected = [z] (optionally with a default): the wrapper's own signature gains exactly z; every original parameter keeps   *)
+(* its kind, its position among the original parameters and its default.  WHERE z goes is not prescribed.                    *)
+ExpectOK(sig, wparams, z, hasdef) ==
+    LET others == SelectSeq(wparams, LAMBDA p : p[1] # z)
+        zs == SelectSeq(wparams, LAMBDA p : p[1] = z) IN
+    /\ others = Params(sig)
+    /\ Len(zs) = 1 /\ zs[1][3] = hasdef /\ zs[1][2] \in {1, 3}
+(* one way to satisfy it: positional at the end when that is legal, keyword-only otherwise *)
+Expect(sig, z, hasdef) == IF hasdef \/ sig.ndef = 0 THEN [sig EXCEPT !.pos = Append(@, z), !.ndef = IF hasdef THEN @ + 1 ELSE @]
+                          ELSE [sig EXCEPT !.kwo = Append(@, [n |-> z, d |-> FALSE])]
 (* positional parameters whose default cannot stay if a required positional parameter is removed before them: none - Python    *)
 (* only needs defaults to be trailing, and removing a parameter keeps them trailing                                            *)
 =============================================================================
